@@ -195,19 +195,22 @@ def render_upstream(v):
 class Scenario:
     """repos: list of {url, version, config: {codenames: {cn: {comp: {arches:[..], src: bool}}}, clean, byhash}}"""
 
-    def __init__(self, repos, nthreads=4, autoclean=True, retries=3, extra_lines=(), limit_rate="100m"):
+    def __init__(self, repos, nthreads=4, autoclean=True, retries=3, extra_lines=(), limit_rate="100m",
+                 wipe_default=False):
         self.repos = repos
         self.nthreads = nthreads
         self.autoclean = autoclean
         self.retries = retries
         self.extra_lines = list(extra_lines)
         self.limit_rate = limit_rate
+        self.wipe_default = wipe_default   # True: leave wipe_size_ratio / wipe_count_ratio at the tool's defaults (0.4)
 
     def config_text(self, base: Path):
         lines = [f"set base_path {base}", f"set nthreads {self.nthreads}", "set uvloop 0",
                  f"set _autoclean {1 if self.autoclean else 0}", f"set release_files_retries {self.retries}",
-                 f"set limit_rate {self.limit_rate}", "set slow_rate_protection off", f"set etc_netrc {base}/auth.conf",
-                 "set wipe_size_ratio 0", "set wipe_count_ratio 0"]
+                 f"set limit_rate {self.limit_rate}", "set slow_rate_protection off", f"set etc_netrc {base}/auth.conf"]
+        if not getattr(self, "wipe_default", False):
+            lines += ["set wipe_size_ratio 0", "set wipe_count_ratio 0"]
         for r in self.repos:
             for cn, comps in r["config"]["codenames"].items():
                 for comp, cc in comps.items():
